@@ -3905,6 +3905,10 @@ coap_dispatch(coap_context_t *context, coap_session_t *session,
 #if COAP_OSCORE_SUPPORT
   if (!COAP_PDU_IS_SIGNALING(pdu) &&
       coap_option_check_critical(session, pdu, &opt_filter) == 0) {
+    if (coap_is_mcast(&session->addr_info.local)) {
+      /* RFC7252 8.1: neither Reset nor error response to a multicast request */
+      goto cleanup;
+    }
     if (pdu->type == COAP_MESSAGE_NON) {
       coap_send_rst_lkd(session, pdu);
       goto cleanup;
@@ -4172,7 +4176,9 @@ coap_dispatch(coap_context_t *context, coap_session_t *session,
     /* check for unknown critical options */
     if (coap_option_check_critical(session, pdu, &opt_filter) == 0) {
       packet_is_bad = 1;
-      coap_send_rst_lkd(session, pdu);
+      /* RFC7252 8.1: no Reset in reply to a multicast request */
+      if (!coap_is_mcast(&session->addr_info.local))
+        coap_send_rst_lkd(session, pdu);
       goto cleanup;
     }
     if (!check_token_size(session, pdu)) {
@@ -4184,6 +4190,10 @@ coap_dispatch(coap_context_t *context, coap_session_t *session,
     if (!COAP_PDU_IS_SIGNALING(pdu) &&
         coap_option_check_critical(session, pdu, &opt_filter) == 0) {
       packet_is_bad = 1;
+      if (coap_is_mcast(&session->addr_info.local)) {
+        /* RFC7252 8.1: no error response to a multicast request */
+        goto cleanup;
+      }
       if (COAP_PDU_IS_REQUEST(pdu)) {
         response =
             coap_new_error_response(pdu, COAP_RESPONSE_CODE(402), &opt_filter);
